@@ -58,6 +58,22 @@ CHECKS["C17"] = dict(level="fault_enumeration", ref="6/C17",
         "are not asserted. Real mmap is replaced by the file store.",
    technique=TECH + "; fault enumeration over stored artefacts behind link-time file seams")
 
+CHECKS["C04"] = dict(level="exploration", ref="6/C04",
+   text="decoder_alignment requested at plan-chosen points (mid-utterance on partial results, twice in a row, after more audio, after end_utt; grow/circular buffering; compallsen and "
+        "default scoring): every non-NULL alignment is checked against the segmentation read at the same instant, the dictionary pronunciations, the model's emitting states, the "
+        "partition / contiguity / positive-duration rules and exact score additivity; the word-score = first-pass-score clause is evaluated only where it is well defined (compallsen, "
+        "wip=pip=1, pruning disabled).",
+   note=DEC_NOTE + " Two structural exceptions to the word-score clause are recorded as known findings (one-phone words, last word of a result).",
+   technique=TECH + "; invariant monitors over alignments requested at scheduled instants")
+CHECKS["C10"] = dict(level="fault_enumeration", ref="6/C10",
+   text="Valid artefacts (generated JSGF/FSG, dictionary and filler-dictionary excerpts, JSON/key-value configuration, feat_params.json, alignment text, word+pronunciation, CMN text) damaged "
+        "by structured mutations and handed over either as STORED files through the simulated file layer (mmio image / fopen stream, with short reads and EIO at byte k, JSGF imports) "
+        "or as in-memory strings; whatever the library returns is used (grammar activated + decode, config -> fe/feat init, dictionary lookups) and freed; terminates within a "
+        "watchdog, no memory error / assert / exit.",
+   note="Simulation proper applies to the stored artefacts (file-layer faults); the in-memory string half rides on the same corruptor and is mutated-argument testing (a coverage-guided "
+        "fuzzer would be the better tool there and is not built). One known finding (closure blow-up on deeply nested JSGF).",
+   technique=TECH + "; storage-fault injection on text artefacts behind the file seams plus structured text mutation")
+
 NA = {
  "C02": "pure function of grammar, dictionary, model and frame scores: no schedule, fault, history or crash point; needs an independent max-plus reference (differential testing), another technique family",
  "C05": "pure function of one JSGF text (a compiler-correctness property): nothing to schedule or fault; language enumeration against a JSGF interpreter is the right tool",
